@@ -154,7 +154,7 @@ PROPS["C12"] = {
     "shards": 16,
     "quick_budget_s": 60,
     "thorough_budget_s": 900,
-    "floors": {"any": {"positive:accepted": 1000, "mutant:delete:rejected": 1000, "mutant:substitute:rejected": 1000,
+    "floors": {"any": {"lexical:forbidden:c1-control": 1000, "lexical:forbidden:c0-control": 1000, "lexical:forbidden:bidi": 500, "positive:accepted": 1000, "mutant:delete:rejected": 1000, "mutant:substitute:rejected": 1000,
                        "mutant:swap:rejected": 1000, "mutant:duplicate:rejected": 1000, "mutant:insert:rejected": 1000,
                        "mutant:substitute:still-grammatical": 20, "lexical:forbidden-codepoint-rejected": 500,
                        "lexical:bad-token-rejected": 500, "production:targets-clause": 100, "production:arg-fill-not-last": 50,
@@ -601,7 +601,7 @@ PROPS["C11"] = {
     "shards": 16,
     "quick_budget_s": 60,
     "thorough_budget_s": 900,
-    "floors": {"any": {"merged-import:world-offers-less-than-the-union": 30, "merged-import:world-offers-the-union": 60, "pair:None": 200, "pair:Superset": 50, "pair:ImportRemoved": 50, "pair:ExportAdded": 50,
+    "floors": {"any": {"type-shadow:only-a-type-of-that-name": 300, "type-shadow:really-exported": 200, "merged-import:world-offers-less-than-the-union": 30, "merged-import:world-offers-the-union": 60, "pair:None": 200, "pair:Superset": 50, "pair:ImportRemoved": 50, "pair:ExportAdded": 50,
                        "pair:ImportTypeChanged": 50, "pair:ExportTypeChanged": 50, "pair:VersionShift": 5,
                        "resolve:accept": 200, "resolve:import-not-in-target": 50, "resolve:missing-export": 50,
                        "resolve:type-mismatch": 100, "reference:subtype": 100, "reference:not-subtype": 100}},
